@@ -304,6 +304,11 @@ func (r *tbRunner) exec(f []string) {
 	line := "tb " + strings.Join(f, " ")
 	r.be.opts, r.be.err, r.be.finals, r.be.seats = nil, nil, nil, nil
 	wasIn := r.t.VerifInPosition()
+	pre := snapSMPlayers(r.t.VerifSeatManager())
+	preSheet := map[int]string{}
+	for k, v := range r.t.GetState().Players {
+		preSheet[k] = v.ID
+	}
 	_, pan := safely(func() error {
 		switch f[0] {
 		case "join":
@@ -339,6 +344,7 @@ func (r *tbRunner) exec(f []string) {
 		r.dead = true
 		r.o.Emit(line, "tb err=panic")
 		r.o.Count("tb.panic")
+		r.o.Violate("C18", "table.no_panic", "the table panicked on "+line)
 		return
 	}
 	e := tbErrName(err)
@@ -348,6 +354,7 @@ func (r *tbRunner) exec(f []string) {
 	r.o.Emit(line, r.obs(e, ret))
 	r.o.Count("tb.ops." + f[0])
 	r.o.Count("tb.err." + e)
+	r.monitorSeats(f, pre, preSheet, err, ret)
 	switch f[0] {
 	case "join", "leave", "activate", "reserve":
 		if err == nil {
@@ -384,6 +391,136 @@ func (r *tbRunner) exec(f []string) {
 			r.dirty = false
 		} else if r.be.opts != nil && r.be.err == nil {
 			r.dirty = true
+		}
+	}
+}
+
+// monitorSeats: C18 at the table's own entry points (table.go Join / Leave / Activate / Reserve and the hands in between): what the
+// property says about seat operations, evaluated on the seat map and the table's player sheet before and after the call.
+func (r *tbRunner) monitorSeats(f []string, pre *smSnap, preSheet map[int]string, err error, ret string) {
+	post := snapSMPlayers(r.t.VerifSeatManager())
+	V := func(mon, msg string) { r.o.Violate("C18", mon, msg) }
+	sheet := r.t.GetState().Players
+	// one player per seat, on the sheet exactly where the seat map has him
+	seen := map[string]int{}
+	for i, s := range post.seats {
+		p, on := sheet[i]
+		if (s.pid >= 0) != (on && p != nil) {
+			V("table.sheet_in_sync", fmt.Sprintf("after %v: seat %d occupied=%v in the seat map, on the table's player sheet=%v", f, i, s.pid >= 0, on))
+			continue
+		}
+		if s.pid >= 0 {
+			if p.ID != "p"+itoa(int64(s.pid)) || p.SeatID != i {
+				V("table.sheet_in_sync", fmt.Sprintf("after %v: seat %d holds %d in the seat map, the sheet says %s with SeatID %d", f, i, s.pid, p.ID, p.SeatID))
+			}
+			if j, dup := seen[p.ID]; dup {
+				V("table.no_double_booking", fmt.Sprintf("after %v: player %s is seated on seats %d and %d", f, p.ID, j, i))
+			}
+			seen[p.ID] = i
+		}
+	}
+	for k := range sheet {
+		if k < 0 || k >= len(post.seats) {
+			V("table.sheet_in_sync", fmt.Sprintf("after %v: the sheet has a player under key %d, outside the table", f, k))
+		}
+	}
+	changed := []int{}
+	for i := range post.seats {
+		if pre.seats[i].pid != post.seats[i].pid {
+			changed = append(changed, i)
+		}
+	}
+	count := func(s *smSnap) int {
+		n := 0
+		for _, x := range s.seats {
+			if x.pid >= 0 {
+				n++
+			}
+		}
+		return n
+	}
+	free := func(s *smSnap) []int {
+		xs := []int{}
+		for i, x := range s.seats {
+			if x.pid < 0 && !x.reserved {
+				xs = append(xs, i)
+			}
+		}
+		return xs
+	}
+	switch f[0] {
+	case "join":
+		seat := int(atoi(f[1]))
+		r.o.Count("tb.c18.join")
+		if err != nil {
+			if len(changed) > 0 {
+				V("table.refused_no_effect", fmt.Sprintf("refused Join(%d) changed seats %v", seat, changed))
+			}
+			switch {
+			case seat == -1:
+				r.o.Count("tb.c18.join_any_refused")
+				if fr := free(pre); len(fr) > 0 {
+					V("table.join_any", fmt.Sprintf("Join(-1) reports %v although seat(s) %v are empty and not reserved", err, fr))
+				}
+			case seat >= 0 && seat < len(pre.seats) && pre.seats[seat].pid < 0:
+				V("table.join_spec", fmt.Sprintf("Join(%d) on an empty seat of the table refused: %v", seat, err))
+			}
+			return
+		}
+		got := int(atoi(ret))
+		if got < 0 || got >= len(pre.seats) || pre.seats[got].pid >= 0 {
+			V("table.join_spec", fmt.Sprintf("Join(%d) seated the player on seat %d, which is occupied or outside the table", seat, got))
+			return
+		}
+		if seat >= 0 && got != seat {
+			V("table.join_spec", fmt.Sprintf("Join(%d) seated the player on seat %d", seat, got))
+		}
+		if seat == -1 {
+			r.o.Count("tb.c18.join_any_ok")
+			if pre.seats[got].reserved {
+				V("table.join_any", fmt.Sprintf("Join(-1) put the player on reserved seat %d", got))
+			}
+			if !pre.seats[got].active {
+				r.o.Count("tb.c18.join_any_on_inactive_seat")
+			}
+		}
+		if len(changed) != 1 || changed[0] != got || post.seats[got].pid != int(atoi(f[2])) {
+			V("table.join_spec", fmt.Sprintf("Join(%d) = %d changed the occupants of seats %v", seat, got, changed))
+		}
+		if !post.seats[got].reserved {
+			V("table.joined_held_out", fmt.Sprintf("the player who joined seat %d is not held out of play (seat not reserved) before sitting in", got))
+		}
+	case "leave":
+		seat := int(atoi(f[1]))
+		if err == nil {
+			if len(changed) != 1 || changed[0] != seat || post.seats[seat].pid >= 0 {
+				V("table.leave_frees", fmt.Sprintf("Leave(%d) changed the occupants of seats %v", seat, changed))
+			}
+		} else if len(changed) > 0 {
+			V("table.refused_no_effect", fmt.Sprintf("refused Leave(%d) changed seats %v", seat, changed))
+		}
+	case "activate", "reserve", "setup":
+		if len(changed) > 0 {
+			V("table.count", fmt.Sprintf("%v changed the occupants of seats %v", f, changed))
+		}
+	case "hand":
+		// only the `leave` elimination mode takes players off the table, and only players who ended the hand with nothing
+		for _, i := range changed {
+			if post.seats[i].pid >= 0 || r.t.GetState().Options.EliminateMode != "leave" {
+				V("table.count", fmt.Sprintf("a hand changed the occupant of seat %d (%d -> %d)", i, pre.seats[i].pid, post.seats[i].pid))
+			}
+		}
+	}
+	if f[0] != "hand" {
+		want := count(pre)
+		if err == nil && f[0] == "join" {
+			want++
+		}
+		if err == nil && f[0] == "leave" {
+			want--
+		}
+		if got := r.t.VerifSeatManager().GetPlayerCount(); got != want || count(post) != want {
+			V("table.count", fmt.Sprintf("after %v (err=%v): %d players counted, %d seats occupied, joins minus leaves says %d", f, err, got, count(post), want))
 		}
 	}
 }
